@@ -127,7 +127,9 @@ def call(cls, inst, name, args, inst_given=False):
 B = 'BLANK'   # placeholder replaced per class
 NUMS = [0, 1, -1, 2, 2.5, -2.5, 0.0045, 1.005, 10, 1e15, 2 ** 53 + 1, -0.0, 1e16, -1e16, 1e20, 1.5e300, 1e-5, -2.5e-7, 5e-324, 123456789012345678,
         0.1 + 0.2, 1 / 3, 2.0, -7.0, 1e15 + 0.5, 999999999999999.9, float('inf'), float('-inf'), float('nan')]
-TEXTS = ['', 'a', 'abc', 'ABC', 'a?c', 'a*', '~*x', '10', '1.5', 'nan', 'x[1]', '2024-01-31', '31/01/2024', '12:30', '5%', '1 234,5', 'a.b', '(a)']
+TEXTS = ['', 'a', 'abc', 'ABC', 'a?c', 'a*', '~*x', '10', '1.5', 'nan', 'x[1]', '2024-01-31', '31/01/2024', '12:30', '5%', '1 234,5', 'a.b', '(a)',
+         # texts with a line break, a tab, a carriage return (Alt+Enter labels): wildcards run over them like over any character
+         'a\nbc', 'Total\n2024', 'a\tc', 'a\r\nc', 'ab\n', '\n']
 DATES = [dt.datetime(2024, 1, 31), dt.datetime(2024, 2, 29), dt.datetime(2023, 12, 31, 23, 59), dt.datetime(2020, 2, 29), dt.datetime(2024, 3, 1)]
 SPAN = [dt.datetime(2024, 1, 1) + dt.timedelta(days=d) for d in (0, 4, 5, 6, 7, 13, 30, 59, 60, 61, 90)]
 
@@ -187,7 +189,7 @@ def synth(name, rng, n):
         '_sumifs': lambda: ([[10], [20], [30]], [[1], [2], [B]], P([lambda x: x > 0, lambda x: x == 0]), *P([(), ([['a'], ['b'], ['a']], lambda x: x == 'a'), ([[1], [2]], lambda x: True)])),
         '_countifs': lambda: (P([[[1], [0], [3]], [['a'], [B], ['c']]]), P([lambda x: x is not None and x != 2, lambda x: x == 0, lambda x: True]), *P([(), ([[1], [2], [3]], lambda x: x > 1)])),
         '_averageifs': lambda: (P([[[10], [20], [30]], [[True], [B], [3]], [['x'], [1], [2]], []]), [[1], [2], [3]], P([lambda x: x > 1, lambda x: x > 9])),
-        '_criterion': lambda: (P(scal + ['>5', '<=2.5', '<>a', '=abc', 'a*', '?', '~*', '>=2024-01-31', '<>', '=', '>x', '10', ' 7 ', '>1e3', '<-1']),),
+        '_criterion': lambda: (P(scal + ['>5', '<=2.5', '<>a', '=abc', 'a*', '?', '~*', '>=2024-01-31', '<>', '=', '>x', '10', ' 7 ', '>1e3', '<-1', 'a*c', 'Total*', '*2024', '<>*20??', 'a?c', '=a?bc', '*', '??', 'a*\n']),),
         '_wildcard_pattern': lambda: (P(TEXTS + ['a?b', '*', '~~', '~?x~*', 'a.b*', '[a]?', '\\d+', '~', 'x~']),),
         '_criterion_number': lambda: (P(scal + [' 12 ', '-3.5', '1e3', 'inf', 'nan', '0x10', '1_000', '٣']),),
         'set_arguments': lambda: ([{'uid': '_0_0_0', 'value': P(NUMS)}],),
